@@ -34,7 +34,7 @@ func encodeWithAnnotation(name string) string {
 
 func runC18(r *Result, d *drv.Driver, tier string, seed int64, replay string) {
 	r.Rule = "exhaustive: every (spec name, number) of the transcribed KMIP 1.0-1.4 registry (292 tags, 10 item types, 43 operations, 4 result statuses, 25 result reasons, 3 credential types, plus 12 further enumeration groups) " +
-		"against the constant of that name as compiled; every key of the tagMap literal resolved through the real Encode (struct-tag path and field path); all pairs of tag names for shared numbers. distinct = one per (name, number) pair"
+		"against the constant of that name as compiled; every key of the tagMap literal resolved through the real Encode (struct-tag path - carried by an embedded, exported, blank or unexported Tag field - and field path); all pairs of tag names for shared numbers. distinct = one per (name, number) pair"
 	r.Exhaustive = true
 	rep, err := d.Ask("c18")
 	if err != nil || !strings.HasPrefix(rep, "ok ") {
@@ -49,6 +49,7 @@ func runC18(r *Result, d *drv.Driver, tier string, seed int64, replay string) {
 	}
 	c18StructTagsStable(r, seed)
 	c18Options(r)
+	c18MarkerForms(r)
 	// samples: what the real encoder emits for a few annotations
 	for _, name := range []string{"UNIQUE_IDENTIFIER", "REQUEST_MESSAGE", "SENSITIVE"} {
 		r.sample(map[string]string{"annotation": name, "real_encode": encodeWithAnnotation(name)})
@@ -412,4 +413,70 @@ func c18Options(r *Result) {
 		}
 	}
 	r.Stats["annotation-option-probes"] = len(names) * 4
+}
+
+// c18MarkerForms: the struct-level annotation in each form Go allows its carrier to take - the embedded Tag field the
+// package's own types use, an exported named field, the blank field `_ Tag`, an unexported named field - for EVERY tag name
+// of the table: Encode must write the struct under the number of that name, and Decode of those bytes must accept them.
+func c18MarkerForms(r *Result) {
+	tagNum := map[string]uint32{}
+	for _, c := range gentab.Consts {
+		if c.Typ == "Tag" {
+			tagNum[c.Name] = uint32(c.Num)
+		}
+	}
+	tTag := reflect.TypeOf(kmip.Tag(0))
+	forms := []struct {
+		name string
+		f    reflect.StructField
+	}{
+		{"embedded Tag", reflect.StructField{Name: "Tag", Type: tTag, Anonymous: true}},
+		{"exported field T Tag", reflect.StructField{Name: "T", Type: tTag}},
+		{"blank field _ Tag", reflect.StructField{Name: "_", PkgPath: "main", Type: tTag}},
+		{"unexported field tag Tag", reflect.StructField{Name: "tag", PkgPath: "main", Type: tTag}},
+	}
+	bad := 0
+	for _, kv := range gentab.MapKeys["tagMap"] {
+		x := strings.SplitN(kv, "=", 2)[0]
+		if x == "-" || x == "ANY_TAG" || tagNum[x] == 0 {
+			continue
+		}
+		for fi, form := range forms {
+			f := form.f
+			f.Tag = reflect.StructTag(fmt.Sprintf(`kmip:"%s"`, x))
+			fields := []reflect.StructField{f, {Name: "A", Type: reflect.TypeOf(int32(0)), Tag: `kmip:"BATCH_COUNT,required"`}}
+			if fi%2 == 1 { // marker not in first position
+				fields[0], fields[1] = fields[1], fields[0]
+			}
+			st := reflect.StructOf(fields)
+			v := reflect.New(st)
+			res, b, _ := realEncode(v.Interface())
+			r.Evaluations++
+			r.Stats["marker-form-probes"]++
+			got := "encode failed: " + res
+			if strings.HasPrefix(res, "ok") && len(b) >= 8 {
+				got = fmt.Sprintf("%06x", uint32(b[0])<<16|uint32(b[1])<<8|uint32(b[2]))
+				// the conforming bytes, written by hand, must also be accepted under that annotation
+				msg := append([]byte{byte(tagNum[x] >> 16), byte(tagNum[x] >> 8), byte(tagNum[x]), 1, 0, 0, 0, 16}, 0x42, 0x00, 0x0d, 2, 0, 0, 0, 4, 0, 0, 0, 5, 0, 0, 0, 0)
+				tgt := reflect.New(st)
+				var err error
+				func() {
+					defer func() {
+						if p := recover(); p != nil {
+							err = fmt.Errorf("panic: %v", p)
+						}
+					}()
+					err = kmip.NewDecoder(bytes.NewReader(msg)).Decode(tgt.Interface())
+				}()
+				if err != nil && got == fmt.Sprintf("%06x", tagNum[x]) {
+					got += "; Decode of a conforming item: " + err.Error()
+				}
+			}
+			if got != fmt.Sprintf("%06x", tagNum[x]) && bad < 5 {
+				bad++
+				r.find(Finding{Kind: "violation", What: "the struct annotation kmip:\"" + x + "\" carried by " + form.name + " does not resolve to the number of " + x,
+					Input: map[string]string{"annotation": x, "carrier": form.name}, Expect: fmt.Sprintf("%06x", tagNum[x]), Actual: got})
+			}
+		}
+	}
 }
